@@ -67,39 +67,30 @@ Definition oeid_eqb (a b : option eid) : bool :=
 (* one element as the traversal yields it: who it is, its .parent, and what the loop reads of it *)
 Inductive body :=
 | BTag (p : tagp) (nkids : nat)                      (* len(contents) *)
-| BStr (cls : N) (s : str) (pname : option str) (nextnl : bool).
-    (* parent.name (None when parent is None); nextnl: next_sibling is a NavigableString that is not a
-       PreformattedString and starts with a newline (read by Doctype.output_ready) *)
+| BStr (cls : N) (s : str) (pname : option str).     (* parent.name, None when parent is None *)
 Record elem := mkel { e_id : eid; e_par : option eid; e_body : body }.
 
 Definition output_kind (c : N) : N :=
   match assocN c string_class_output with Some k => k | None => 0 end.
 Definition preformatted (c : N) : bool := negb (output_kind c =? 0).
 
-(* what Doctype.output_ready reads of its next sibling *)
-Definition starts_nl (l : list node) : bool :=
-  match l with
-  | NStr c (10 :: _) :: _ => negb (preformatted c)
-  | _ => false
-  end.
-
 (* self_and_descendants: the pre-order, each element with its parent pointer *)
-Fixpoint flat (q : eid) (par : option eid) (pname : option str) (nextnl : bool) (t : node) : list elem :=
+Fixpoint flat (q : eid) (par : option eid) (pname : option str) (t : node) : list elem :=
   match t with
-  | NStr c s => [mkel q par (BStr c s pname nextnl)]
+  | NStr c s => [mkel q par (BStr c s pname)]
   | NTag p ks =>
       mkel q par (BTag p (length ks)) ::
       (fix go (i : nat) (l : list node) : list elem :=
          match l with
          | [] => []
-         | k :: l' => flat (q ++ [i]) (Some q) (Some (g_name p)) (starts_nl l') k ++ go (S i) l'
+         | k :: l' => flat (q ++ [i]) (Some q) (Some (g_name p)) k ++ go (S i) l'
          end) 0%nat ks
   end.
 (* .descendants of the element at q named pname *)
 Fixpoint flat_kids (q : eid) (pname : str) (i : nat) (l : list node) : list elem :=
   match l with
   | [] => []
-  | k :: l' => flat (q ++ [i]) (Some q) (Some pname) (starts_nl l') k ++ flat_kids q pname (S i) l'
+  | k :: l' => flat (q ++ [i]) (Some q) (Some pname) k ++ flat_kids q pname (S i) l'
   end.
 
 (* ---- _event_stream ---- *)
@@ -127,7 +118,7 @@ Fixpoint event_loop (stack : list elem) (els : list elem) : list event :=
       | BTag p n =>
           if is_empty_element p n then mkev KEmpty c :: event_loop stack' rest
           else mkev KStart c :: event_loop (c :: stack') rest
-      | BStr _ _ _ _ => mkev KString c :: event_loop stack' rest
+      | BStr _ _ _ => mkev KString c :: event_loop stack' rest
       end
   end.
 Definition event_stream (els : list elem) : list event := event_loop [] els.
@@ -172,17 +163,11 @@ Definition substitute (f : fmt) (is_navstr : bool) (pname : option str) (s : str
 Definition affixes (c : N) : str * str :=
   match assocN c string_class_affixes with Some a => a | None => ([], []) end.
 
-Definition ends_nl (s : str) : bool := match rev s with 10 :: _ => true | _ => false end.
-
-(* output_ready: NavigableString's, PreformattedString's, Doctype's *)
-Definition output_ready (f : fmt) (c : N) (s : str) (pname : option str) (nextnl : bool) : str :=
+(* output_ready: NavigableString's (through the formatter) or PreformattedString's (formatter's result ignored) *)
+Definition output_ready (f : fmt) (c : N) (s : str) (pname : option str) : str :=
   let '(pre, suf) := affixes c in
-  match output_kind c with
-  | 0 => pre ++ substitute f true pname s ++ suf
-  | 2 => let out := pre ++ s ++ suf in
-         if nextnl && ends_nl out then removelast out else out
-  | _ => pre ++ s ++ suf
-  end.
+  if preformatted c then pre ++ s ++ suf
+  else pre ++ substitute f true pname s ++ suf.
 
 (* ---- _format_tag ---- *)
 Fixpoint str_leb (a b : str) : bool :=                 (* Python's str <= : code point by code point *)
@@ -270,7 +255,7 @@ Record dstate := mkds {
   d_out : list str               (* pieces, most recent first *)
 }.
 
-Definition is_string_body (b : body) : bool := match b with BStr _ _ _ _ => true | _ => false end.
+Definition is_string_body (b : body) : bool := match b with BStr _ _ _ => true | _ => false end.
 
 Definition decode_step (enc : bool) (f : fmt) (st : dstate) (ev : event) : dstate :=
   let el := ev_el ev in
@@ -278,7 +263,7 @@ Definition decode_step (enc : bool) (f : fmt) (st : dstate) (ev : event) : dstat
     match e_body el, ev_kind ev with
     | BTag p n, KEnd => format_tag enc f p n false
     | BTag p n, _ => format_tag enc f p n true
-    | BStr c s pn nn, _ => output_ready f c s pn nn
+    | BStr c s pn, _ => output_ready f c s pn
     end in
   let level := match ev_kind ev with KEnd => option_map (fun l => (l - 1)%Z) (d_level st) | _ => d_level st end in
   let in_literal := match d_slt st with Some _ => true | None => false end in
@@ -313,7 +298,7 @@ Definition decode_events (enc : bool) (f : fmt) (level : option Z) (evs : list e
 (* the elements decode() iterates over: self_and_descendants, a hidden self being skipped *)
 Definition elements_of (t : node) : list elem :=
   match t with
-  | NTag p ks => if g_hidden p then flat_kids [] (g_name p) 0 ks else flat [] None None false t
+  | NTag p ks => if g_hidden p then flat_kids [] (g_name p) 0 ks else flat [] None None t
   | NStr _ _ => []
   end.
 Definition contents_of (t : node) : list elem :=
